@@ -8,7 +8,15 @@
 (* requests; every service processes its requests one at a time in the FIFO   *)
 (* order of its request directory's inotify queue (services/_base_service.py, *)
 (* _linux_base_service.py), a request is executed one ZooKeeper call per      *)
-(* step, sessions expire at any point.                                        *)
+(* step.  At any point a service's session may expire (the service exits,     *)
+(* zkutils.exit_on_lost, and is restarted with a new session and an empty     *)
+(* map), or the service process may crash with its session -- and the         *)
+(* session's ephemeral nodes -- lingering until the session times out while   *)
+(* the restarted service already works with a new one.                        *)
+(* (Kill = presence.kill_node run by an administrator is an exploratory       *)
+(* switch outside the statement of C17; every configuration of the check has  *)
+(* MaxKill = 0 and the driver does not implement it.  With MaxKill = 1 TLC    *)
+(* shows the get / delete window of _safe_delete, see NOTES_C17.md.)          *)
 (*                                                                            *)
 (* Functional style (DESIGN.md 3.1): one state record `st`, every action is   *)
 (* a guard plus a successor function taking the scenario S as a parameter, so *)
@@ -67,6 +75,7 @@ InitSt(S) ==
    sess    |-> [h \in HostSet(S) |-> IndexIn(S.hosts, h)],
    nsess   |-> Len(S.hosts) + 1,
    reg     |-> [h \in HostSet(S) |-> <<>>],       \* service map: path -> container
+   rseq    |-> [h \in HostSet(S) |-> <<>>],       \* its paths in insertion order (a Python dict)
    active  |-> [h \in HostSet(S) |-> {}],         \* containers whose request exists
    queue   |-> [h \in HostSet(S) |-> <<>>],       \* pending request events <<kind, c>>
    pc      |-> [h \in HostSet(S) |-> IdlePc],     \* request in flight
@@ -143,7 +152,7 @@ BeginDo(S, st_, h) ==
   LET e == Head(st_.queue[h])
       c == e[2]
       ps == CPaths(S, c)
-      todo == SelectSeq(ps, LAMBDA p : p \in DOMAIN st_.reg[h] /\ st_.reg[h][p] = c)
+      todo == SelectSeq(st_.rseq[h], LAMBDA p : p \in Range(ps) /\ st_.reg[h][p] = c)
       pc == IF e[1] = "create"
             THEN IF c \in st_.active[h]
                  THEN CreatePc(S, st_, h, c, 1)
@@ -224,7 +233,8 @@ DropAll(f, ps) == [q \in DOMAIN f \ ps |-> f[q]]
 Registered(S, st_, h) ==
   LET pc == st_.pc[h]
       p == CurPath(S, st_, h)
-      s1 == [st_ EXCEPT !.reg[h] = Put(@, p, pc.c), !.claimed[h] = Claim(S, st_, h, p, pc.c)] IN
+      s1 == [st_ EXCEPT !.reg[h] = Put(@, p, pc.c), !.claimed[h] = Claim(S, st_, h, p, pc.c),
+                        !.rseq[h] = IF p \in DOMAIN st_.reg[h] THEN @ ELSE Append(@, p)] IN
   [s1 EXCEPT !.pc[h] = CreatePc(S, s1, h, pc.c, pc.idx + 1)]
 
 (* after the current path of a delete request is done (forgotten)             *)
@@ -233,6 +243,7 @@ Forgotten(S, st_, h) ==
       p == Head(pc.todo)
       rest == Tail(pc.todo) IN
   [st_ EXCEPT !.reg[h] = Drop(@, p),
+              !.rseq[h] = SelectSeq(@, LAMBDA q : q # p),
               !.pc[h] = IF rest = <<>> THEN [pc EXCEPT !.ph = "end", !.res = "ok", !.todo = <<>>]
                         ELSE [pc EXCEPT !.ph = "dget", !.todo = rest]]
 
@@ -305,6 +316,7 @@ ExpireDo(S, st_, h, word) ==
                         !.watches = {w \in @ : w.h # h},
                         !.sess[h] = 0,
                         !.reg[h] = <<>>,
+                        !.rseq[h] = <<>>,
                         !.pc[h] = [IdlePc EXCEPT !.ph = "down"],
                         !.fs[h] = FALSE,
                         !.nexp = @ + 1,
@@ -335,6 +347,7 @@ CrashDo(S, st_, h) ==
               !.watches = {w \in @ : w.h # h},
               !.sess[h] = 0,
               !.reg[h] = <<>>,
+              !.rseq[h] = <<>>,
               !.claimed[h] = <<>>,
               !.pc[h] = [IdlePc EXCEPT !.ph = "down"],
               !.fs[h] = FALSE,
